@@ -1,4 +1,5 @@
 import A5.Lemmas.RealGeo
+import A5.Lemmas.AuthalicCompose
 import Mathlib.Tactic.FieldSimp
 /-! # C19 — geodetic ⇄ authalic latitude and lon/lat ⇄ sphere
 
@@ -232,5 +233,22 @@ example : scaleG (4 : ℚ) (scaleG (1 / 4) (10 + 93)) - 93 = 10 := lon_roundtrip
 example (φ : ℝ) : authalicR 0 0 0 0 0 0 φ = φ := by rw [authalicR_eq_series]; ring
 example : toLonLatG (id : ℚ → ℚ) 4 93 2 (fromLonLatG id (1 / 4) 93 2 10 20).1 (fromLonLatG id (1 / 4) 93 2 10 20).2
     = (10, 20) := lonlat_roundtrip id id (1 / 4) 4 93 2 10 20 (by norm_num) (fun _ => rfl)
+
+/-! ## the round trip geodetic → authalic → geodetic, over ℝ -/
+
+/-- **`authalic_roundtrip`** - the first clause of the property in exact real arithmetic: for EVERY real latitude the two
+order-6 series, with the exact rational values of the coefficient tables regenerated from `authalic.rs` and including
+the Clenshaw recurrence's defect term, are inverse to each other within 1.35e-13 rad (hence within the property's 1e-12),
+in both orders.  Proof (`A5/Lemmas/AuthalicCompose.lean`): addition formulas with explicit sine/cosine remainders reduce
+`g(f φ) - φ` to a polynomial in `e^{2iφ}` with 49 rational coefficients computed by the kernel from the tables, plus a
+remainder bounded by an explicit rational.  Not covered: the `f64` rounding of the recurrence. -/
+theorem authalic_roundtrip (φ : ℝ) :
+    |authalicInverseR (authalicForwardR φ) - φ| ≤ 1.35e-13 ∧ |authalicForwardR (authalicInverseR φ) - φ| ≤ 1.35e-13 ∧
+    |authalicInverseR (authalicForwardR φ) - φ| ≤ 1e-12 ∧ |authalicForwardR (authalicInverseR φ) - φ| ≤ 1e-12 :=
+  ⟨AuthalicCompose.inverse_forward_sharp φ, AuthalicCompose.forward_inverse_sharp φ,
+    AuthalicCompose.compose_bound φ, AuthalicCompose.compose_bound' φ⟩
+
+/-- non-vacuity: the statement at 45 degrees -/
+example : |authalicInverseR (authalicForwardR (Real.pi / 4)) - Real.pi / 4| ≤ 1e-12 := (authalic_roundtrip _).2.2.1
 
 end A5.C19
